@@ -160,6 +160,8 @@ def run(ctx):
   from sa import pitfalls
   pitfalls.apply(ctx, 'PITFALL', [ctx.func(fq)], ['dead-parameter'], {
       'dead-parameter': 'apply_sustain_control_changes(sequence, sustain_control_number=n) must act on controller n'})
+  from rules import C12 as _c12      # a stream merged or searched as if it were sorted (heapq.merge, bisect) must be sorted whatever the storage order
+  _c12.assumes_sorted_in(ctx, ('apply_sustain_control_changes',))
   rank_in_sort_key(ctx, fi)       # location-independent rules first
   note_off_removes_one(ctx, fi)
   threshold_scenarios(ctx, fi, 'THRESHOLD/scenarios')
